@@ -83,6 +83,7 @@ type c16Cfg struct {
 	failRun   bool     // alphabet additionally contains Running -> Failed
 	reready   bool     // alphabet additionally contains "pod becomes ready again"
 	podDel    []string // pods that may be deleted while their job waits for arbitration
+	podRepl   []string // pods that may be REPLACED (same name, new UID: a StatefulSet pod re-created) while their job waits
 	restart   bool     // alphabet additionally contains "the descheduler restarts" (fresh arbitrator, initial sync re-delivers all jobs)
 	dup       []string // pods for which a user may create a second job while one is live (no webhook / CRD rule forbids it)
 	adopted   []string // jobs that are already Running when the arbitrator starts (delivered as Create events by the initial sync)
@@ -575,6 +576,32 @@ func c16BuildOps(cfg *c16Cfg) []c16Op {
 						panic(err)
 					}
 					s.gone[pn] = true
+				}})
+		}
+		if c16In(cfg.podRepl, pn) {
+			// the pod of a waiting job is re-created under the same name (new UID, same node / namespace / workload, Ready):
+			// the job now names the replacement, which is arbitrated like any pod (seed C16-H treated it as missing = unchecked)
+			ops = append(ops, c16Op{name: "podReplaced(" + pn + ")", pod: pn, kind: "podReplaced",
+				enabled: func(s *c16Sys) bool {
+					return !s.gone[pn] && !strings.HasSuffix(string(s.podObj[pn].UID), "#2") && s.liveJobWhere(pn, func(j *v1alpha1.PodMigrationJob) bool {
+						return c16Phase(j) == v1alpha1.PodMigrationJobPending && !c16Passed(j) && s.isWaiting(j)
+					}) != nil
+				},
+				apply: func(s *c16Sys) {
+					ps := c16Spec(pn)
+					p := &corev1.Pod{}
+					if err := s.cl.Get(context.TODO(), types.NamespacedName{Namespace: ps.ns, Name: ps.name}, p); err != nil {
+						panic(err)
+					}
+					if err := s.cl.Delete(context.TODO(), p); err != nil {
+						panic(err)
+					}
+					q := c16MakePod(ps)
+					q.UID = types.UID(string(q.UID) + "#2")
+					if err := s.cl.Create(context.TODO(), q); err != nil {
+						panic(err)
+					}
+					s.podObj[pn] = q
 				}})
 		}
 		if c16In(cfg.dup, pn) {
@@ -1102,7 +1129,7 @@ func (s *c16Sys) Key() string {
 	}
 	var ws []w
 	for _, ps := range c16Universe {
-		fmt.Fprintf(&sb, "%s:r=%v,gone=%v,term=%v", ps.name, c16Ready(s.podObj[ps.name]), s.gone[ps.name], s.podObj[ps.name].DeletionTimestamp != nil)
+		fmt.Fprintf(&sb, "%s:r=%v,gone=%v,term=%v,uid=%s", ps.name, c16Ready(s.podObj[ps.name]), s.gone[ps.name], s.podObj[ps.name].DeletionTimestamp != nil, s.podObj[ps.name].UID)
 		var fin []string
 		for i := range jobs {
 			j := &jobs[i]
@@ -1189,6 +1216,8 @@ func c16Configs(env *mc.Env) []*c16Cfg {
 		// budgets unset: the built-in allowance applies; 15 expected replicas of w1 (of which a1 a2 a3 are in the universe)
 		// allow floor(10%) = 1 migrating / unavailable pod
 		{name: "wl-budgets-unset-15replicas", elig: []string{"a1", "a2", "a3", "b1"}, repl: map[string]int{"w1": 15}, perNode: i(2), depthQ: 6, depthT: 9},
+		// the pod of a waiting job is re-created under the same name while the namespace budget is in use
+		{name: "ns1-podreplaced", elig: []string{"a1", "a3", "b1"}, perNs: i(1), perWl: c16IS("70%"), maxUnav: c16IS("70%"), podRepl: []string{"a3", "a1"}, depthQ: 6, depthT: 9},
 		{name: "adopted-running-node1", elig: all, adopted: []string{"a1", "a3"}, perNode: i(1), global: i(3), perWl: c16IS("70%"), maxUnav: c16IS("70%"), depthQ: 6, depthT: 9},
 	}
 	if env.Thorough() {
